@@ -174,7 +174,7 @@ pub fn sweep(cases: Arc<Vec<Case>>, cfg: Arc<DevConfig>, f32_full: bool) -> DevR
         let stats3 = stats2.clone();
         let _timer = Defer(Some(move || { *stats3.case_ns.lock().unwrap().entry(ci).or_insert(0) += t_job.elapsed().as_nanos() as u64; }));
         slot.begin(u64::MAX, 0); // construction
-        let s: Box<dyn Sampler> = match std::panic::catch_unwind(std::panic::AssertUnwindSafe(|| (case.build)())) {
+        let s: Box<dyn Sampler> = match std::panic::catch_unwind(std::panic::AssertUnwindSafe(|| crate::exec::in_subject(|| (case.build)()))) {
             Ok(Some(s)) => s,
             Ok(None) => return,
             Err(_) => {
